@@ -500,10 +500,18 @@ func checkCli(c CliCase) error {
 	} else {
 		args = append(args, "-f", strconv.FormatFloat(c.Cutoff, 'g', -1, 64))
 	}
-	r := cli.Run(cli.Scratch(), in.String(), args...)
+	dir := cli.Scratch()
+	toFile := len(c.Trees)%3 == 0
+	if toFile {
+		args = append(args, "-o", "cons.nw")
+	}
+	r := cli.Run(dir, in.String(), args...)
 	ctx := fmt.Sprintf(" (gotree %v)\n%s", args, in.String())
 	if r.Code != 0 || r.TimedOut {
 		return fmt.Errorf("command failed with status %d: %s%s", r.Code, r.Stderr, ctx)
+	}
+	if toFile {
+		r.Stdout = cli.Read(dir, "cons.nw")
 	}
 	m, err := ref.Parse(strings.TrimRight(r.Stdout, "\r\n"))
 	if err != nil {
